@@ -10,10 +10,15 @@
    the size the header implies - each starting with a filter type 0..4, and which un-filters to the candidate's image data, whose
    meaning (palette indices inside the palette included) is the input's (C01). Given for
    runs without alpha rewriting; that inflate undoes the compressor is the zlib oracle assumption, re-validated on every run.
+   WHOLE CALL (C02_optimized_file_wellformed): for a valid input shorter than 2^31 - 9 bytes, what optimize_from_memory returns
+   is accepted by the strict container parser and decoded by the specification's whole-file decoder (legal IHDR, PLTE/tRNS
+   as the colour type requires, one IDAT holding a stream of exactly the implied size with filter types 0..4, IEND last);
+   C02_container_side_conditions derives chunk-name / length / key-chunk conditions of everything written from the input.
    PARTIAL: the input-relative ordering constraints of ancillary chunks are decided per run by the strict validator oracle.
    (Finding F8 - hIST kept without PLTE - was repaired by fix 2fc6ac2; the validator reports it if it ever returns.) *)
 From OxiVerif Require Import Base.Common Base.Crc32 Spec.Decode Model.Types Model.Options Model.Headers Model.PngData
   Model.Evaluate Model.Optimize Proofs.OutputProofs Proofs.PipelineLossless Proofs.EmittedStream.
+From OxiVerif Require Import Spec.Adam7 Spec.Sem Spec.Decode Spec.DecodeFile Model.Headers Model.PngData Model.Optimize Proofs.Bridge Proofs.LiftColor Proofs.LiftAlpha Proofs.OutputProofs Proofs.OutputDecode Proofs.PipelineLossless Proofs.FileToFile Proofs.ContainerOk.
 From OxiVerif Require Import Spec.Sem Spec.DecodeFile Proofs.Bridge Proofs.OutputDecode.
 
 Theorem C02_output_is_chunk_sequence : forall p, output p = PNG_SIG ++ serialize (output_chunks p).
@@ -70,3 +75,34 @@ Theorem C02_output_decodes : forall (inflate : list Z -> option (list Z)) (p : p
   end.
 Proof. exact output_decodes. Qed.
 Print Assumptions C02_output_decodes.
+
+(* the container side conditions of everything optimize_png writes, derived from the parsed input *)
+Theorem C02_container_side_conditions : forall e o p p' N M pic,
+  png_ok N p -> 0 <= N -> N + 5 <= M -> M + 4 < 2 ^ 31 -> (forall d s, lenZ (z_deflate e d s) <= M) ->
+  0 <= width (hdr (raw p)) < 2 ^ 32 -> 0 <= height (hdr (raw p)) < 2 ^ 32 ->
+  scale_16 o = false -> means pic (raw p) ->
+  optimize_png_data e p o = Ok p' -> container_ok p'.
+Proof. exact optimize_png_data_container. Qed.
+Print Assumptions C02_container_side_conditions.
+
+(* whenever optimising a valid file succeeds, the bytes produced are parsed by the strict container parser and decoded *)
+Theorem C02_optimized_file_wellformed : forall e o (inflate : list Z -> option (list Z)) bytes out pic nm ih rest M,
+  scale_16 o = false ->
+  bytes_ok bytes -> lenZ bytes + 5 <= M -> M + 4 < 2 ^ 31 -> (forall d s, lenZ (z_deflate e d s) <= M) ->
+  spec_parse_png bytes = Some ((nm, ih) :: rest) ->
+  spec_decode_chunks inflate ((nm, ih) :: rest) = Some pic ->
+  List.filter (named spec_IHDR) rest = [] ->
+  (length (List.filter (named spec_PLTE) rest) <= 1)%nat -> (length (List.filter (named spec_tRNS) rest) <= 1)%nat ->
+  (forall x n y, z_inflate e x n = Ok y -> inflate x = Some y /\ bytes_ok y) ->
+  (forall d s, inflate (z_deflate e d s) = Some s) ->
+  (forall p, from_slice e bytes o = Ok p ->
+     spec_raw_size (width (hdr (raw p))) (height (hdr (raw p))) (bpp (hdr (raw p))) (interlaced (hdr (raw p))) true <= usize_max /\
+     wf_ctype (ctype (hdr (raw p))) (depth (hdr (raw p)))) ->
+  optimize_from_memory e o bytes = Ok out ->
+  exists chunks pic', spec_parse_png out = Some chunks /\ spec_decode_chunks inflate chunks = Some pic'.
+Proof.
+  intros e o inflate bytes out pic nm ih rest M Hs Hok HM HM2 Hdefl Hparse Hdec H1 H2 H3 Hz Hzd Hside H.
+  destruct (optimize_from_memory_alpha e o inflate bytes out pic nm ih rest M Hs Hok HM HM2 Hdefl Hparse Hdec H1 H2 H3 Hz Hzd Hside H) as (pic' & Hd & _).
+  unfold spec_decode_png in Hd. destruct (spec_parse_png out) as [chunks|]; [|discriminate]. exists chunks, pic'. split; [reflexivity|exact Hd].
+Qed.
+Print Assumptions C02_optimized_file_wellformed.
